@@ -218,6 +218,8 @@ def ref_t(r):
 
 
 def float_raw(kind, x):
+    if kind == 'F32' and hasattr(x, 'raw32'):      # bit-preserving f32 constant (after fixes/C21-f32-keep-bits)
+        return bytes(x.raw32)
     return struct.pack('<f' if kind == 'F32' else '<d', x)
 
 
@@ -951,6 +953,26 @@ def known_witnesses(ctx):
                        'actual': b2.hex() if isinstance(b2, bytes) else b2,
                        'how_to_replay': 'Module(bytes.fromhex(expected)).to_bytes(): f32 constants are held as Python floats, '
                                         'struct converts f32 sNaN to qNaN'})
+    # 5..7 text form, instruction level (mirrored by c21_text_*_refuted)
+    def text_rt(ins):
+        m = make_module([C.Type(0, [], []), C.Func(0, Ref('type', index=0), [], ins)])
+        b = m.to_bytes()
+        return Module(Module(b).to_string()).to_bytes() == b
+    for fn, args, ins, how in (
+            ('text U8 operand', ['memory.fill'], [Instruction('memory.fill', 0)],
+             'to_string prints "memory.fill 0" but the parser does not consume the U8 operand (same for memory.copy and SIMD lane instructions)'),
+            ('text call_indirect table', [1], [Instruction('call_indirect', Ref('type', index=0), Ref('table', index=1))],
+             'to_string prints "call_indirect (type 0) (const.i64 1)" which the parser rejects'),
+            ('text v128 load/store', ['v128.load'], [Instruction('v128.load', 4, 16)],
+             'to_string raises KeyError: default_alignment has no entry for v128')):
+        try:
+            ok = with_alarm(5, lambda: text_rt(ins))
+            act = 'differs' if not ok else 'same'
+        except Exception as ex:   # noqa: BLE001
+            ok, act = False, repr(ex)[:200]
+        if not ok:
+            ctx.violation({'fn': fn, 'args': args, 'expected': 'binary -> text -> binary reproduces the module',
+                           'actual': act, 'how_to_replay': how})
     # 4. text form prints NaN without payload/sign (validation only)
     x = struct.unpack('<d', bytes.fromhex('ffffffffffffffff'))[0]
     defs = [C.Global(0, 'f64', False, [Instruction('f64.const', x)])]
@@ -1173,7 +1195,7 @@ def text_validation(ctx, n):
 
 
 PROOFS = ['Proofs/C21_leb.vo', 'Proofs/C21_instr.vo', 'Proofs/C21_defs.vo', 'Proofs/C21_module.vo', 'Proofs/C21_spec.vo',
-          'Proofs/C21_canon.vo']
+          'Proofs/C21_canon.vo', 'Proofs/C21_text.vo']
 
 
 def run(ctx):
@@ -1183,7 +1205,7 @@ def run(ctx):
     if ok:
         ctx.check_props('Props/C21.v')
     # ---- correspondence: hand model (over the regenerated tables) vs implementation
-    if ctx.build(['Model/WasmBinVal.vo'])[0]:
+    if ctx.build(['Model/WasmBinVal.vo', 'Model/WasmText.vo'])[0]:
         try:
             correspondence(ctx, quick, dmax)
         except Exception as ex:   # noqa: BLE001
@@ -1214,7 +1236,7 @@ def run_cases_retry(ctx, name, cases, shard, imports=None):
     if bad is None:
         ctx.failed_stages[:] = [s for s in ctx.failed_stages if s[0] != 'cases_' + name]
         ctx.cov['evaluations'] -= len(cases)
-        ctx.build(['Model/WasmBinVal.vo'] + PROOFS)
+        ctx.build(['Model/WasmBinVal.vo', 'Model/WasmText.vo'] + PROOFS)
         bad = ctx.run_cases(name, imports, cases, shard=shard)
     return bad
 
@@ -1227,12 +1249,15 @@ def correspondence(ctx, quick, dmax):
         ctx.cov['stages']['correspondence_distribution'] = dict(stats, instruction_cases=len(c2), malformed_streams=len(c3))
         for r in (r1[:3] + r2[5:8] + r3[:2]):
             ctx.note_sample({'kind': r[0], 'value': repr(r[1])[:300]})
+        c5, r5, tstats = corr_text(ctx, 150 if quick else 1500)
+        ctx.cov['stages']['text_instruction_model'] = tstats
         c4, r4 = corr_canonical(ctx, r1, 120 if quick else 900)
         ctx.cov['stages']['correspondence_distribution']['canonical_predicate_cases'] = len(c4)
         ctx.cov['stages']['correspondence_distribution']['canonical_true'] = sum(1 for r in r4 if r[2])
         for name, cases, recs, shard in (('modules', c1, r1, 20), ('instrs', c2, r2, 120), ('malformed', c3, r3, 60),
-                                         ('canon', c4, r4, 30)):
-            bad = run_cases_retry(ctx, name, cases, shard, IMPORTS + ['Proofs.C21_canon'] if name == 'canon' else IMPORTS)
+                                         ('canon', c4, r4, 30), ('text', c5, r5, 40)):
+            imports = IMPORTS + ['Proofs.C21_canon'] if name == 'canon' else (TEXT_IMPORTS if name == 'text' else IMPORTS)
+            bad = run_cases_retry(ctx, name, cases, shard, imports)
             if bad:
                 for i in bad[:5]:
                     ctx.log('model/implementation disagree on', name, repr(recs[i])[:600])
@@ -1271,10 +1296,13 @@ MANIFEST = {
             'instructions of the opcode table with every immediate kind, nested expressions, all 12 section kinds, whole modules: '
             'reading what the writer wrote returns the module) plus a reflected check of the opcode table against an independent '
             'reference table of the specification; the text form is validated by round trip only (binary -> text -> binary on generated '
-            'MVP modules); there is no reference engine in the sandbox, so acceptance by one is not checked',
+            'MVP modules) except at the instruction level, where printing/parsing of instructions and function bodies is modelled and '
+            'proved (c21_text_*); the converse binary direction (canonical bytes are reproduced, c21_canonical_bytes) is proved too; '
+            'there is no reference engine in the sandbox, so acceptance by one is not checked',
     'note': 'trusted: Coq kernel, the table exporter, the hand model (differentially checked against Module.to_bytes()/Module(bytes) on '
-            'every run), CPython struct/utf-8. Known findings re-executed on every run: datacount read with the signed LEB reader, '
-            'externref type byte is two bytes, f32 signalling-NaN constants change bits, text form drops NaN payloads. No axioms.',
+            'every run), CPython struct/utf-8/repr/float()/int(). Known findings re-executed on every run: f32 signalling-NaN constants change bits; '
+            'text form: NaN payloads dropped, U8 operands (memory.fill/copy, lane ops) printed but not parsed, call_indirect on table != 0, '
+            'v128 load/store cannot be printed. No axioms.',
     'technique': 'Coq proof over hand model + exported tables (reflection), differential correspondence, independent spec-table oracle',
 }
 
